@@ -22,8 +22,11 @@ def run(chk, repo, tier):
     chk.clause('C17-d', 'slice cache refreshed after the mask changes', 1)
     chk.clause('C17-e', 'the original plane is untouched (all writes go to a deep copy)', 2)
     chk.clause('C17-f', 'util.rescale: output shape ceil(n*scale) in all branches; interpolation coordinates in (row, col) order', 7)
+    chk.clause('C17-g', 'util.rescale: interpolated image times the power normalisation (iff unitary) times the interpolated mask', 2)
     chk.not_decided += ['interpolation accuracy, power/PSF preservation, identity at scale 1 (numerical)']
 
+    from .extra_rules import rescale_unitary_rule
+    rescale_unitary_rule(chk, repo, 'C17-g')
     f = repo.func('plane.Plane.rescale')
     _, paths, _ = analyse(repo, f)
     rets = returns(paths)
